@@ -451,9 +451,9 @@ def answerQuery (b : Bundle) (q : String) : String :=
   | ["sp", p] =>
     match decStr p with
     | some p =>
-      match splitLocalPath b p with
-      | none => "err"
-      | some (d, sub) => encStr d ++ "~" ++ encStr sub
+      match splitLocalPath b p, sourceForLocalPath b p with
+      | some (d, sub), some (addr, _) => encStr d ++ "~" ++ encStr sub ++ "~" ++ encStr addr
+      | _, _ => "err"
     | none => "not-utf8"
   | _ => "bad-op"
 
